@@ -187,6 +187,18 @@ func genC08(tier, out string, sum *Summary) {
 			}
 		}
 	}
+	// well-formed expressions without functions, variables or arithmetic never fail, whatever the document
+	for _, e := range []string{"[*].[*]", "a[*].[*]", "[].[*]", "*.[*]", "[?a].[*]", "[0:1].[*]", "[*].[*].[*]", "a.[*]", "@.[*]", "a.*.[*]", "[*].*", "*.*", "a[*].*.*", "[*].[ *]", "a.[ *, b]", "[*].{a: *}", "a[?b].[*][0]", "[*].[*] | [0]", "a | [*].[*]", "(a)[*].[*]", "a[*].[*][*]", "a[][].[*]", "[::2].[*]", "[::-1].[*].[*]",
+		"a[*][*]", "a[][]", "a[?@][?@]", "a.*.*", "[*][0]", "[0][*]", "a[0:][0:]", "a[::-1][::-1]", "a.b.c.d", "a[0][1][2]", "[a, b][*]", "{x: a}.x[*]", "a || b || c", "a && b", "!a", "a == b", "a != a", "@", "$", "$.a[*].b", "(a | b)[*]", "a[*] | [*] | [*]"} {
+		for _, d := range append(docs, jsonDoc(`[[1,2],[3]]`), jsonDoc(`{"a":[[1],[2,[3]]],"b":{"a":1}}`), jsonDoc(`[{"a":1},{"a":[1,2]},null,3]`), jsonDoc(`{"a":{"b":[{"c":1}]}}`)) {
+			emitToModel = false
+			o := check(e, d, "", false)
+			emitToModel = true
+			if o.Kind != "val" {
+				sum.direct("category", e, d, "an expression made of selectors and comparisons only cannot fail, got "+describe(o))
+			}
+		}
+	}
 	// integer arguments carried by Go kinds that JSON decoding never produces: out of range is a value fault,
 	// never a type fault (the argument IS a number)
 	{
